@@ -101,6 +101,12 @@ Definition perm_eqb (a b : list nat) : bool :=
   forallb (fun x => Nat.eqb (count a x) (count b x)) (a ++ b).
 Definition not_timeout_tok (t : nat) : bool := negb (Nat.eqb t tok_timeout).
 
+(* the spinner's own timeout call is reported as junk only when it was left pending because the reactor was
+   stopped before either the Deferred or the timeout fired (a run that delivered the function's result or timed
+   out leaves no junk of its own, so that the next run is not refused for it) *)
+Definition own_junk_okb (o : robs) : bool :=
+  if has tok_timeout (o_junk o) then result_eqb (o_res o) (Raised ENoResult) else true.
+
 (* whenever run() returns or raises (other than ReentryError): reactor stopped and empty, stop and handlers restored *)
 Definition clean_okb (rs : runspec) (o : robs) : bool :=
   negb (o_running o) && Nat.eqb (o_pending o) 0 && Nat.eqb (o_readers o) 0
@@ -120,6 +126,7 @@ Definition run_okb (stale : list nat) (rs : runspec) (o : robs) : bool :=
       && option_eqb Bool.eqb (o_reentry o) (if f_reenter (r_fn rs) then Some true else None)
       (* every leftover of the function either ran or is reported as junk, once *)
       && perm_eqb (o_ran o ++ filter not_timeout_tok (o_junk o)) (sched_tokens (r_fn rs))
+      && own_junk_okb o
   end.
 
 Fixpoint runs_okb (prev_junk : list nat) (rss : list runspec) (os : obs) : bool :=
@@ -155,6 +162,7 @@ Definition Run_spec (stale : list nat) (rs : runspec) (o : robs) : Prop :=
           /\ o_ran o = isort Nat.leb (filter not_timeout_tok (o_order o))
           /\ o_reentry o = (if f_reenter (r_fn rs) then Some true else None)
           /\ (forall t, count (o_ran o ++ filter not_timeout_tok (o_junk o)) t = count (sched_tokens (r_fn rs)) t)
+          /\ (In tok_timeout (o_junk o) -> o_res o = Raised ENoResult)
   end.
 
 Fixpoint Runs_spec (prev_junk : list nat) (rss : list runspec) (os : obs) : Prop :=
